@@ -23,13 +23,30 @@ GRV_CMD(scale) {
         const gr_faceinfo *fi = gr_face_info(face, 0);
         const long upem = fi ? fi->upem : 0;
         if (upem <= 0) { gr_face_destroy(face); continue; }
-        std::ifstream in((*j)["file"].s);
-        std::string l; long ln = 0;
-        while (std::getline(in, l) && ln < maxlines) {
-            if (l.empty() || (ln++ % step)) continue;
-            if (l.size() > 400) l.resize(400);              // keeps design-unit positions inside the fixed-point range
-            while (!l.empty() && (l.back() & 0xC0) == 0x80) l.pop_back();
-            if (!l.empty() && (unsigned char)l.back() >= 0xC0) l.pop_back();
+        // texts: lines of a file (cut to 400 bytes so that design-unit positions stay inside the fixed-point range)
+        // or one explicit code point sequence
+        std::vector<std::string> texts;
+        if (j->has("cps")) {
+            std::string u;
+            for (auto &x : (*j)["cps"].a) { uint32_t c = uint32_t(x->num()); if (c == 0 || (c >= 0xD800 && c < 0xE000) || c > 0x10FFFF) continue;
+                if (c < 0x80) u += char(c); else if (c < 0x800) { u += char(0xC0 | (c >> 6)); u += char(0x80 | (c & 63)); }
+                else if (c < 0x10000) { u += char(0xE0 | (c >> 12)); u += char(0x80 | ((c >> 6) & 63)); u += char(0x80 | (c & 63)); }
+                else { u += char(0xF0 | (c >> 18)); u += char(0x80 | ((c >> 12) & 63)); u += char(0x80 | ((c >> 6) & 63)); u += char(0x80 | (c & 63)); } }
+            if (!u.empty()) texts.push_back(u);
+        } else {
+            std::ifstream in((*j)["file"].s);
+            std::string l0; long ln0 = 0;
+            while (std::getline(in, l0) && ln0 < maxlines) {
+                if (l0.empty() || (ln0++ % step)) continue;
+                if (l0.size() > 400) l0.resize(400);
+                while (!l0.empty() && (l0.back() & 0xC0) == 0x80) l0.pop_back();
+                if (!l0.empty() && (unsigned char)l0.back() >= 0xC0) l0.pop_back();
+                texts.push_back(l0);
+            }
+        }
+        long ln = j->get("lineno", 0);
+        for (const std::string &l : texts) {
+            ++ln;
             const size_t nch = gr_count_unicode_characters(gr_utf8, l.data(), l.data() + l.size(), 0);
             GRV_WATCHDOG;
             gr_segment *s0 = gr_make_seg(0, face, 0, 0, gr_utf8, l.data(), nch, dir);
